@@ -182,6 +182,7 @@ class Fn:
     defaults: dict = dataclasses.field(default_factory=dict)  # parameter -> the literal text of its default in the signature (checked); a call may then omit it
     literal_kw: tuple = ()  # parameters that call sites may only pass as a literal constant (anything else is refused)
     inline: bool = False    # a method whose body is a single `return <expr>`: not emitted, expanded at every call site (checked on every run)
+    locals: dict = dataclasses.field(default_factory=dict)   # EXTENDED sheets: declared type of a local first bound to `[]`
 
 
 @dataclasses.dataclass
@@ -267,6 +268,10 @@ class Tr:
         self.ctor_fields = None         # inside a `Ctor`: attribute name -> V of the `self.<f>` assigned so far
 
     # ------------------------------------------------------------------ helpers
+    @property
+    def ext(self):
+        return bool(getattr(self.sheet, "EXTENDED", False))
+
     def M(self, key):
         return self.sheet.MONAD[key]
 
@@ -305,6 +310,11 @@ class Tr:
             # a nested def handed on as a value (`lax.scan(step, …)`): the partial application to its captured variables
             info = v.items
             return V(F([t for _, t in info["params"]], info["ret"], info["monadic"]), " ".join([info["lean"]] + info["captured"]))
+        if v.kind == "fn" and self.ext and v.items["kind"] == "fn" and not v.items["monadic"]:
+            # a nested def used as a VALUE (returned closure): a lambda over its own parameters, captured variables applied
+            info = v.items
+            names = [f"a{i}" for i in range(len(info["params"]))]
+            return V(F([t for _, t in info["params"]], info["ret"]), f"(fun {' '.join(names)} => {' '.join([info['lean']] + info['captured'] + names)})")
         raise Refuse(f"a {v.kind} value where a Lean {what} is needed")
 
     def adapt(self, v, ty):
@@ -648,6 +658,16 @@ class Tr:
                 and any(p.pattern == "shape0" for p in self.sheet.PRIMS):
             return self.match_prim("shape0", [(self.ex(n.value.value), n.value.value)], what=ast.unparse(n))
         v = self.ex(n.value)
+        if self.ext:
+            neg1 = lambda e: isinstance(e, ast.UnaryOp) and isinstance(e.op, ast.USub) and isinstance(e.operand, ast.Constant) and e.operand.value == 1 and not isinstance(e.operand.value, bool)
+            if neg1(n.slice):            # xs[-1]
+                return self.match_prim("sub_last", [(v, n.value)], what=ast.unparse(n)[:60])
+            if isinstance(n.slice, ast.Slice) and n.slice.step is None and n.slice.lower is None and n.slice.upper is not None and neg1(n.slice.upper):   # xs[:-1]
+                return self.match_prim("slice_droplast", [(v, n.value)], what=ast.unparse(n)[:60])
+            if v.kind == "lean" and isinstance(v.ty, tuple) and v.ty[0] == "Tup" and isinstance(n.slice, ast.Constant) \
+                    and isinstance(n.slice.value, int) and not isinstance(n.slice.value, bool) and 0 <= n.slice.value < len(v.ty) - 1:   # pair[0]
+                i, k = n.slice.value, len(v.ty) - 1
+                return V(v.ty[1 + i], proj(paren(v.code), i, k))
         if isinstance(n.slice, ast.Slice):
             s = n.slice
             if s.step is not None or s.lower is not None or s.upper is None:
@@ -684,7 +704,15 @@ class Tr:
         out = []
         for a in n.args:
             if isinstance(a, ast.Starred):
-                out += self.star_args(a, n)
+                if isinstance(a.value, ast.GeneratorExp) or not self.ext:
+                    out += self.star_args(a, n)
+                else:
+                    # `f(a, *pair)` (EXTENDED sheets): a starred value of tuple type is spread into its components
+                    v = self.lean(self.ex(a.value))
+                    if not (isinstance(v.ty, tuple) and v.ty[0] == "Tup"):
+                        raise Refuse(f"starred argument `{ast.unparse(a)}` that is not a tuple")
+                    k = len(v.ty) - 1
+                    out += [(V(t, proj(paren(v.code), i, k)), None) for i, t in enumerate(v.ty[1:])]
             else:
                 out.append((self.ex(a), a))
         return out
@@ -750,9 +778,28 @@ class Tr:
         if isinstance(f, ast.Call):
             callee = self.ex(f)
             return self.match_prim("apply", [(callee, f)] + self.args_of(n), n.keywords, what=text[:60])
+        # ---- a.at[i, j, k].set(v)
+        if self.ext and isinstance(f, ast.Attribute) and f.attr == "set" and isinstance(f.value, ast.Subscript) \
+                and isinstance(f.value.value, ast.Attribute) and f.value.value.attr == "at" and not n.keywords and len(n.args) == 1:
+            idx = f.value.slice
+            elts = idx.elts if isinstance(idx, ast.Tuple) else [idx]
+            args = [(self.ex(f.value.value.value), f.value.value.value)]
+            for e in elts:
+                args.append((None, e) if isinstance(e, ast.Slice) else (self.ex(e), e))
+            args.append((self.ex(n.args[0]), n.args[0]))
+            return self.match_prim("atset", args, what=text[:60])
+        # ---- callee is a subscript (`pairs[-1][0](x)`)
+        if self.ext and isinstance(f, ast.Subscript):
+            callee = self.lean(self.ex(f))
+            return self.match_prim("apply", [(callee, f)] + self.args_of(n), n.keywords, what=text[:60])
         # ---- method call on a value
         if isinstance(f, ast.Attribute) and (dotted_root(f) is None or dotted_root(f) in self.env):
             recv = self.ex(f.value)
+            if self.ext and recv.kind == "lean":
+                head = recv.ty[0] if isinstance(recv.ty, tuple) else recv.ty
+                if (head, f.attr) in self.gen.fields:   # a FIELD that holds a callable (`self.cond_linear(c)`), narrowing respected
+                    callee = self.lean(self.ex(f))
+                    return self.match_prim("apply", [(callee, f)] + self.args_of(n), n.keywords, what=text[:60])
             if recv.kind == "lean":
                 head = recv.ty[0] if isinstance(recv.ty, tuple) else recv.ty
                 info = self.gen.methods.get((head, f.attr))
@@ -867,6 +914,8 @@ class Tr:
             raise Refuse("vmapped call without a mapped argument")
         body = " ".join([head] + inner)
         if len(mapped) == 1 and not monadic:
+            if self.ext and isinstance(ret, tuple) and ret[0] == "Tup" and len(ret) == 3:   # a pair of arrays, not an array of pairs
+                return V(T(L(ret[1]), L(ret[2])), f"List.unzip (List.map (fun {mapped[0][0]} => {body}) {paren(mapped[0][1])})")
             return V(L(ret), f"List.map (fun {mapped[0][0]} => {body}) {paren(mapped[0][1])}")
         prim = self.sheet.VMAP.get(len(mapped))
         if prim is None:
@@ -887,6 +936,8 @@ class Tr:
         if v.kind == "dict":
             self.env[name] = v
             return
+        if v.kind == "empty" and self.ext and name in self.fn.locals:
+            v = self.coerce(v, self.fn.locals[name])
         if v.kind in ("empty", "none"):
             raise Refuse(f"`{name} = {'[]' if v.kind == 'empty' else 'None'}`: type unknown")
         v = self.lean(v)
@@ -928,6 +979,29 @@ class Tr:
             for nm, x in leaves:
                 self.bind_name(nm, x)
             return
+        if self.ext and isinstance(tgt, ast.Tuple) and all(isinstance(e, ast.Name) for e in tgt.elts) and isinstance(st.value, ast.GeneratorExp):
+            # a, b = (f(v) for v in pair): the generator over a tuple of known length, unpacked
+            g = st.value
+            if len(g.generators) != 1 or g.generators[0].ifs or g.generators[0].is_async or not isinstance(g.generators[0].target, ast.Name):
+                raise Refuse("generator other than `f(v) for v in xs`")
+            it = self.lean(self.ex(g.generators[0].iter))
+            if not (isinstance(it.ty, tuple) and it.ty[0] == "Tup" and len(it.ty) - 1 == len(tgt.elts)):
+                raise Refuse(f"unpacking a generator over {it.ty} into {len(tgt.elts)} names")
+            nm = g.generators[0].target.id
+            if nm in self.env:
+                raise Refuse(f"generator variable `{nm}` shadows a variable")
+            items = []
+            self.pure_only += 1
+            try:
+                for i, t in enumerate(it.ty[1:]):
+                    self.env[nm] = V(t, proj(paren(it.code), i, len(it.ty) - 1))
+                    items.append(self.lean(self.ex(g.elt)))
+            finally:
+                self.pure_only -= 1
+                del self.env[nm]
+            for e, x in zip(tgt.elts, items):
+                self.bind_name(e.id, x)
+            return
         if isinstance(tgt, ast.Tuple) and all(isinstance(e, ast.Name) for e in tgt.elts):
             v = self.ex(st.value)
             if v.kind == "lean" and isinstance(v.ty, tuple) and v.ty[0] == "Tup":
@@ -944,6 +1018,8 @@ class Tr:
                 if x.kind == "lean" and any(re.search(rf"\b{re.escape(self.lname(nm))}\b", x.code) for nm in names[:i]):
                     items[i] = self.emit_let(self.tmp(), x, ascribe=False)
             for nm, x in zip(names, items):
+                if self.ext and nm == "_":
+                    continue
                 self.bind_name(nm, x)
             return
         raise Refuse(f"assignment target `{ast.unparse(tgt)}`")
@@ -994,6 +1070,154 @@ class Tr:
         body = "; ".join(lets + [c.code])
         self.blk.lines.append(("guard", f"List.any {paren(it.code)} (fun {var} => {body})", self.raise_term(st.body[0].body[0])))
 
+    def do_assert(self, st):
+        """`assert <e> is not None`: `none`-arm raises AssertionError, the rest of the block sees `<e>` narrowed"""
+        nar = self.narrow_test(st.test)
+        if nar is None or nar[2] or st.msg is not None:
+            raise Refuse(f"`{ast.unparse(st)[:60]}`: assert other than `assert <optional> is not None`")
+        if self.pure_only:
+            raise Refuse("assert inside a lambda / conditional expression")
+        key, ov, _ = nar
+        var = self.tmp("v")
+        self.blk.lines.append(("assert_some", ov.code, var, self.M("raise")["AssertionError"]))
+        self.narrow[key] = V(ov.ty[1], var)
+
+    def assigned_names(self, stmts):
+        out = []
+        for st in stmts:
+            for x in ast.walk(st):
+                if isinstance(x, ast.Name) and isinstance(x.ctx, ast.Store) and x.id not in out:
+                    out.append(x.id)
+                if isinstance(x, ast.Expr) and isinstance(x.value, ast.Call) and isinstance(x.value.func, ast.Attribute) \
+                        and x.value.func.attr == "append" and isinstance(x.value.func.value, ast.Name) and x.value.func.value.id not in out:
+                    out.append(x.value.func.value.id)
+                if isinstance(x, (ast.FunctionDef, ast.Lambda, ast.While, ast.Break, ast.Continue, ast.Return, ast.Global, ast.Nonlocal, ast.Try, ast.With)):
+                    raise Refuse(f"{type(x).__name__} inside a loop body")
+        return out
+
+    def do_for_fold(self, st):
+        """`for pat in it: body` — a fold over the variables the body assigns that exist before the loop (`List.foldl`, or the
+        monad's `foldlM` when the body can raise); names first bound inside the body are local to one iteration"""
+        if st.orelse:
+            raise Refuse("`for … else`")
+        it = self.lean(self.ex(st.iter))
+        if not (isinstance(it.ty, tuple) and it.ty[0] == "List"):
+            raise Refuse(f"iteration over {it.ty}")
+        targets = [x.id for x in ast.walk(st.target) if isinstance(x, ast.Name)]
+        for nm in targets:
+            if nm != "_" and nm in self.env:
+                raise Refuse(f"loop target `{nm}` shadows a variable")
+        assigned = self.assigned_names(st.body)
+        if any(nm in targets for nm in assigned):
+            raise Refuse("the loop body assigns a loop target")
+        carried = [nm for nm in assigned if nm in self.env and self.env[nm].kind == "lean"]
+        for nm in assigned:
+            if nm in self.env and self.env[nm].kind != "lean":
+                raise Refuse(f"the loop body assigns `{nm}`, which is not a value")
+        if not carried:
+            raise Refuse("a loop that carries no variable")
+        if any(re.search(rf"\b{re.escape(nm)}\b", k) for nm in carried for k in self.narrow):
+            raise Refuse("a carried variable is narrowed")
+        tys = [self.env[nm].ty for nm in carried]
+        acc_ty = tys[0] if len(carried) == 1 else T(*tys)
+        acc, var = self.tmp("acc"), self.tmp("v")
+        saved = (self.blk, dict(self.env), dict(self.narrow))
+        self.blk = Block()
+        try:
+            for i, nm in enumerate(carried):
+                self.env[nm] = self.emit_let(self.lname(nm), V(tys[i], proj(acc, i, len(carried))))
+
+            def destruct(pat, ty, code):
+                if isinstance(pat, ast.Name):
+                    if pat.id != "_":
+                        self.env[pat.id] = self.emit_let(self.lname(pat.id), V(ty, code))
+                elif isinstance(pat, ast.Tuple) and isinstance(ty, tuple) and ty[0] == "Tup" and len(ty) - 1 == len(pat.elts):
+                    for i, (p, t) in enumerate(zip(pat.elts, ty[1:])):
+                        destruct(p, t, proj(code, i, len(pat.elts)))
+                else:
+                    raise Refuse(f"loop target `{ast.unparse(pat)}` does not match elements of type {ty}")
+
+            destruct(st.target, it.ty[1], var)
+            self.block(st.body, in_branch=True)
+            for i, nm in enumerate(carried):
+                v = self.env.get(nm)
+                if v is None or v.kind != "lean" or v.ty != tys[i]:
+                    raise Refuse(f"the loop body changes the type of `{nm}` (or leaves it undefined on a path)")
+            final = ", ".join(self.env[nm].code for nm in carried)
+            final = final if len(carried) == 1 else f"({final})"
+            monadic = self.blk.monadic
+            body = self.compose(self.blk.lines, final, monadic, multi=False)
+        finally:
+            self.blk, self.env, self.narrow = saved
+        fn = f"(fun ({acc} : {self.ty(acc_ty)}) ({var} : {self.ty(it.ty[1])}) => {body})"
+        init = ", ".join(self.env[nm].code for nm in carried)
+        init = init if len(carried) == 1 else f"({init})"
+        t = self.tmp()
+        if monadic:
+            self.emit_bind(t, acc_ty, f"{self.M('foldlM')} {fn} {paren(init)} {paren(it.code)}")
+        else:
+            self.emit_let(t, V(acc_ty, f"List.foldl {fn} {paren(init)} {paren(it.code)}"), ascribe=False)
+        for i, nm in enumerate(carried):
+            self.bind_name(nm, V(tys[i], proj(t, i, len(carried))))
+
+    def do_if_and(self, st, conj):
+        """`if c1 and <e> is not None and …: body` (no else): nested `if` / `match`, the body sees every `<e>` narrowed; the
+        variables the body assigns keep their old value on every other path"""
+        if st.orelse:
+            raise Refuse("`if a and b: … else: …` with a narrowing conjunct")
+        heads, nars = [], []
+        for t in conj:
+            nar = self.narrow_test(t)
+            if nar is not None:
+                key, ov, is_none = nar
+                if is_none:
+                    raise Refuse("`… and <e> is None`")
+                var = self.tmp("v")
+                heads.append(("match", ov.code, var))
+                nars.append((key, V(ov.ty[1], var)))
+            else:
+                heads.append(("if", self.coerce(self.ex(t), BOOL).code))
+        saved = (self.blk, dict(self.env), dict(self.narrow))
+        self.blk = Block()
+        for key, v in nars:
+            self.narrow[key] = v
+        try:
+            self.block(st.body, in_branch=True)
+            blk, env = self.blk, self.env
+        finally:
+            self.blk, self.env, self.narrow = saved
+        names = [nm for nm in env if env[nm] is not self.env.get(nm)]
+        for nm in names:
+            a, b = env[nm], self.env.get(nm)
+            if b is None:
+                continue   # bound in the body only: undefined afterwards
+            if a.kind != "lean" or b.kind != "lean" or a.ty != b.ty:
+                raise Refuse(f"`{nm}` changes type in the branch")
+        names = [nm for nm in names if self.env.get(nm) is not None]
+        if not names:
+            if blk.monadic:
+                raise Refuse("a branch that can raise but assigns nothing")
+            return
+        monadic = blk.monadic
+        tys = [env[nm].ty for nm in names]
+        tup = lambda e: (", ".join(e[nm].code for nm in names)) if len(names) == 1 else "(" + ", ".join(e[nm].code for nm in names) + ")"
+        then = "(" + self.compose(blk.lines, tup(env), monadic, multi=False) + ")"
+        other = (f"{self.M('pure')} {paren(tup(self.env))}" if monadic else tup(self.env))
+        expr = then
+        for h in reversed(heads):
+            if h[0] == "if":
+                expr = f"(if {h[1]} then {expr} else {other})"
+            else:
+                expr = f"(match {h[1]} with | some {h[2]} => {expr} | none => {other})"
+        ty = tys[0] if len(names) == 1 else T(*tys)
+        t = self.tmp()
+        if monadic:
+            self.emit_bind(t, ty, expr)
+        else:
+            self.emit_let(t, V(ty, expr), ascribe=False)
+        for i, nm in enumerate(names):
+            self.bind_name(nm, V(tys[i], proj(t, i, len(names))))
+
     def branch(self, body, narrow=None):
         saved = (self.blk, dict(self.env), dict(self.narrow))
         self.blk = Block()
@@ -1008,6 +1232,11 @@ class Tr:
     def do_if(self, st):
         if self.is_guard(st):
             return self.do_guard(st)
+        if self.ext and isinstance(st.test, ast.BoolOp) and isinstance(st.test.op, ast.And):
+            conj = list(st.test.values)
+            is_nar = lambda t: isinstance(t, ast.Compare) and len(t.ops) == 1 and isinstance(t.ops[0], (ast.Is, ast.IsNot))
+            if any(is_nar(t) for t in conj):
+                return self.do_if_and(st, conj)
         nar = self.narrow_test(st.test)
         if nar is not None:
             key, ov, is_none = nar
@@ -1065,6 +1294,8 @@ class Tr:
                 out.append((f"let {l[1]} : {self.ty(l[2])} := {l[3]}" if l[2] is not None else f"let {l[1]} := {l[3]}") + ";")
             elif l[0] == "bind":
                 out.append(f"{self.M('bind')} ({l[2]}) fun {l[1]} =>")
+            elif l[0] == "assert_some":
+                out.append(f"match {l[1]} with | none => {l[3]} | some {l[2]} =>")
             else:
                 out.append(f"if {l[1]} then {l[2]} else")
         out.append(f"{self.M('pure')} {paren(final)}" if monadic and final_pure else final)
@@ -1118,7 +1349,28 @@ class Tr:
             elif isinstance(st, ast.If):
                 self.do_if(st)
             elif isinstance(st, ast.For):
-                self.do_for_guard(st)
+                if self.ext and not (len(st.body) == 1 and self.is_guard(st.body[0])):
+                    self.do_for_fold(st)
+                else:
+                    self.do_for_guard(st)
+            elif self.ext and isinstance(st, ast.AugAssign) and isinstance(st.target, ast.Name):
+                # x += e  is  x = x + e  (for the immutable array / number types of the sheets)
+                old = self.ex(st.target)
+                new = self.match_prim(f"op:{type(st.op).__name__}", [(old, st.target), (self.ex(st.value), st.value)], what=ast.unparse(st)[:60])
+                self.bind_name(st.target.id, new)
+            elif self.ext and isinstance(st, ast.Expr) and isinstance(st.value, ast.Call) and isinstance(st.value.func, ast.Attribute) \
+                    and st.value.func.attr == "append" and isinstance(st.value.func.value, ast.Name):
+                # xs.append(e) on a LOCAL list (never aliased: locals are only bound to fresh displays): xs = xs ++ [e]
+                nm = st.value.func.value.id
+                cur = self.env.get(nm)
+                if cur is None or cur.kind != "lean" or not (isinstance(cur.ty, tuple) and cur.ty[0] == "List") or nm not in self.fn.locals:
+                    raise Refuse(f"`{nm}.append` on something that is not a declared local list")
+                if len(st.value.args) != 1 or st.value.keywords:
+                    raise Refuse("arguments of `.append`")
+                e = self.coerce(self.ex(st.value.args[0]), cur.ty[1])
+                self.bind_name(nm, V(cur.ty, f"{paren(cur.code)} ++ [{e.code}]"))
+            elif self.ext and isinstance(st, ast.Assert):
+                self.do_assert(st)
             elif isinstance(st, ast.FunctionDef):
                 if in_branch:
                     raise Refuse("nested function inside a branch")
@@ -1500,7 +1752,7 @@ class Gen:
         return {"text": text, "errors": errors, "targets": [i.lean for i in sheet.ITEMS]}
 
 
-SHEETS = ["targets_losses", "targets_dist_public", "targets_jaxtr", "targets_families"]
+SHEETS = ["targets_losses", "targets_dist_public", "targets_jaxtr", "targets_families", "targets_bnafnet"]
 
 
 def generate(repo: str) -> dict:
